@@ -1,5 +1,8 @@
 """C07 - line-search steps honour the acceptance conditions they advertise (DESIGN 3, C07)."""
 from ..cfg import must_dataflow
+import sympy as sp
+
+from .. import kalg
 from ..facts import AnalysisBroken, walk
 from ..pp import pp, skip
 from ..util import (args, assignment, callee, incdec, is_call, is_literal, obj, parameter_name, ref_decl, strip_not,
@@ -487,6 +490,42 @@ def rule_cgdescent_bracket(F, R, rule="R-C07-5"):
     R.floor(rule, n, 5, "updateB() calls in CG_DESCENT")
 
 
+def rule_backtrack_contracts(F, R):
+    """R-C07-6: the backtracking search tries a strictly smaller step after every rejected one: the upper clamp of the interpolated step is
+    below the current step for every safeguard in (0, 1) (evaluated symbolically: t - safeguard * (t - 0) < t). If the next trial may equal
+    the current step the search can sit on the interpolated minimiser - which violates Armijo on a convex quadratic when c1 > 1/2 - until
+    its iterations run out, although an acceptable step exists."""
+    f = F.one("nano::lsearchk_backtrack_t::do_get", "src/lsearchk/backtrack.cpp")
+    step = f.param("step_size")
+    cl = [x for x in f.nodes() if assignment(x) and ref_decl(assignment(x)[0]) == (step or {}).get("d") and skip(assignment(x)[1])["k"] == "call" and
+          callee(skip(assignment(x)[1])) == "std::clamp"]
+    if len(cl) != 1:
+        R.incomplete("R-C07-6", "backtrack contraction", f.loc(), "expected one `step_size = std::clamp(...)` in the loop")
+        return
+    a = args(skip(assignment(cl[0])[1]))
+    t = sp.Symbol("t", positive=True)
+    sg = sp.Symbol("sg", positive=True)
+    try:
+        cv = kalg.Conv(f, subst={step["d"]: t}, funcs={"std::min": lambda u, v: sp.Min(u, v), "std::max": lambda u, v: sp.Max(u, v)}, positive=("safeguard",))
+        hi = cv.conv(a[2])
+        lo = cv.conv(a[1])
+    except kalg.OutOfFragment as e:
+        R.incomplete("R-C07-6", "backtrack contraction", f.loc(cl[0]), str(e))
+        return
+    for s_ in list(hi.free_symbols | lo.free_symbols):
+        if s_.name == "safeguard":
+            hi, lo = hi.subs(s_, sg), lo.subs(s_, sg)
+    d = sp.simplify(hi - t)
+    ok = bool(d.is_negative) or all(sp.simplify(d.subs({sg: v, t: w})) < 0 for v in (sp.Rational(1, 100), sp.Rational(1, 2), sp.Rational(99, 100)) for w in (sp.Rational(1, 1000), 1, 1000)) \
+        if not d.free_symbols - {sg, t} else False
+    R.check(ok, "R-C07-6", "backtrack contraction", f.loc(cl[0]), "the next trial is at most %s, strictly below the current step t" % sp.simplify(hi),
+            "the next trial step is clamped to at most `%s` = %s, which is not strictly below the current step t: the search can try the same (rejected) step again and again - "
+            "on a convex quadratic the interpolated minimiser violates Armijo for c1 > 1/2 - and fails although an acceptable step exists" % (pp(a[2])[:40], sp.simplify(hi)))
+    dl = sp.simplify(lo)
+    R.check(bool(sp.simplify(lo).is_positive) or bool((dl - 0).is_nonnegative) or all(sp.simplify(dl.subs({sg: v, t: w})) > 0 for v in (sp.Rational(1, 100), sp.Rational(1, 2)) for w in (sp.Rational(1, 1000), 1000)),
+            "R-C07-6", "backtrack lower clamp", f.loc(cl[0]), "the next trial stays positive (at least %s)" % dl, "the next trial step can be clamped to a non-positive value %s" % dl)
+
+
 def run(ctx):
     R = ctx.report
     F = ctx.facts(TUS)
@@ -512,4 +551,5 @@ def run(ctx):
     rule_get(F, R)
     rule_cgdescent(F, R)
     rule_cgdescent_bracket(F, R)
+    rule_backtrack_contracts(F, R)
     rule_predicates(F, R)
